@@ -31,6 +31,8 @@ def _valid(trace: dict) -> bool:
             return False
         if ev["op"] == "set_hparam" and ev["group"] >= len(trace["groups"]):
             return False
+        if ev["op"] == "poke" and ev["param"] >= n:
+            return False
     return True
 
 
@@ -59,6 +61,10 @@ def drop_param(trace: dict, pi: int) -> dict | None:
             if ev["group"] not in old_to_new_group:
                 continue
             ev = {**ev, "group": old_to_new_group[ev["group"]]}
+        elif ev["op"] == "poke":
+            if ev["param"] == pi:
+                continue
+            ev = {**ev, "param": ev["param"] - (1 if ev["param"] > pi else 0)}
         evs.append(ev)
     t["events"] = evs
     return t if _valid(t) else None
